@@ -56,6 +56,9 @@ def _pure_expr(e: ast.AST) -> bool:
         return _pure_expr(e.operand)
     if isinstance(e, ast.Call) and isinstance(e.func, ast.Name) and e.func.id in ("isinstance", "len", "bool", "callable", "hasattr", "getattr"):
         return all(_pure_expr(a) for a in e.args)
+    if isinstance(e, ast.Call) and isinstance(e.func, ast.Attribute) and e.func.attr == "get" and not e.keywords and 1 <= len(e.args) <= 2 \
+            and all(isinstance(a, ast.Constant) for a in e.args):
+        return _pure_expr(e.func.value)  # mapping.get(<constant>[, <constant>]) reads, it does not write
     return False
 
 
